@@ -207,6 +207,72 @@ Proof.
 Qed.
 Print Assumptions C03_division.
 
+(* 9. the compound-assignment forms (+=, -=, *=, /=, %= and the *_assign_element_wise methods) compute
+      the same vector as the value forms, all dimensions *)
+Theorem C03_assign_forms : forall F (O : Ops F),
+  (forall a b, v1_add_assign O a b = v1_add O a b) /\
+  (forall a b, v1_sub_assign O a b = v1_sub O a b) /\
+  (forall a s, v1_mul_assign O a s = v1_mul_s O a s) /\
+  (forall a s, v1_div_assign O a s = v1_div_s O a s) /\
+  (forall a s, v1_rem_assign O a s = v1_rem_s O a s) /\
+  (forall a b, v1_add_assign_ew O a b = v1_add_ew O a b) /\
+  (forall a s, v1_add_assign_ews O a s = v1_add_ews O a s) /\
+  (forall a b, v1_sub_assign_ew O a b = v1_sub_ew O a b) /\
+  (forall a s, v1_sub_assign_ews O a s = v1_sub_ews O a s) /\
+  (forall a b, v1_mul_assign_ew O a b = v1_mul_ew O a b) /\
+  (forall a s, v1_mul_assign_ews O a s = v1_mul_ews O a s) /\
+  (forall a b, v1_div_assign_ew O a b = v1_div_ew O a b) /\
+  (forall a s, v1_div_assign_ews O a s = v1_div_ews O a s) /\
+  (forall a b, v1_rem_assign_ew O a b = v1_rem_ew O a b) /\
+  (forall a s, v1_rem_assign_ews O a s = v1_rem_ews O a s) /\
+  (forall a b, v2_add_assign O a b = v2_add O a b) /\
+  (forall a b, v2_sub_assign O a b = v2_sub O a b) /\
+  (forall a s, v2_mul_assign O a s = v2_mul_s O a s) /\
+  (forall a s, v2_div_assign O a s = v2_div_s O a s) /\
+  (forall a s, v2_rem_assign O a s = v2_rem_s O a s) /\
+  (forall a b, v2_add_assign_ew O a b = v2_add_ew O a b) /\
+  (forall a s, v2_add_assign_ews O a s = v2_add_ews O a s) /\
+  (forall a b, v2_sub_assign_ew O a b = v2_sub_ew O a b) /\
+  (forall a s, v2_sub_assign_ews O a s = v2_sub_ews O a s) /\
+  (forall a b, v2_mul_assign_ew O a b = v2_mul_ew O a b) /\
+  (forall a s, v2_mul_assign_ews O a s = v2_mul_ews O a s) /\
+  (forall a b, v2_div_assign_ew O a b = v2_div_ew O a b) /\
+  (forall a s, v2_div_assign_ews O a s = v2_div_ews O a s) /\
+  (forall a b, v2_rem_assign_ew O a b = v2_rem_ew O a b) /\
+  (forall a s, v2_rem_assign_ews O a s = v2_rem_ews O a s) /\
+  (forall a b, v3_add_assign O a b = v3_add O a b) /\
+  (forall a b, v3_sub_assign O a b = v3_sub O a b) /\
+  (forall a s, v3_mul_assign O a s = v3_mul_s O a s) /\
+  (forall a s, v3_div_assign O a s = v3_div_s O a s) /\
+  (forall a s, v3_rem_assign O a s = v3_rem_s O a s) /\
+  (forall a b, v3_add_assign_ew O a b = v3_add_ew O a b) /\
+  (forall a s, v3_add_assign_ews O a s = v3_add_ews O a s) /\
+  (forall a b, v3_sub_assign_ew O a b = v3_sub_ew O a b) /\
+  (forall a s, v3_sub_assign_ews O a s = v3_sub_ews O a s) /\
+  (forall a b, v3_mul_assign_ew O a b = v3_mul_ew O a b) /\
+  (forall a s, v3_mul_assign_ews O a s = v3_mul_ews O a s) /\
+  (forall a b, v3_div_assign_ew O a b = v3_div_ew O a b) /\
+  (forall a s, v3_div_assign_ews O a s = v3_div_ews O a s) /\
+  (forall a b, v3_rem_assign_ew O a b = v3_rem_ew O a b) /\
+  (forall a s, v3_rem_assign_ews O a s = v3_rem_ews O a s) /\
+  (forall a b, v4_add_assign O a b = v4_add O a b) /\
+  (forall a b, v4_sub_assign O a b = v4_sub O a b) /\
+  (forall a s, v4_mul_assign O a s = v4_mul_s O a s) /\
+  (forall a s, v4_div_assign O a s = v4_div_s O a s) /\
+  (forall a s, v4_rem_assign O a s = v4_rem_s O a s) /\
+  (forall a b, v4_add_assign_ew O a b = v4_add_ew O a b) /\
+  (forall a s, v4_add_assign_ews O a s = v4_add_ews O a s) /\
+  (forall a b, v4_sub_assign_ew O a b = v4_sub_ew O a b) /\
+  (forall a s, v4_sub_assign_ews O a s = v4_sub_ews O a s) /\
+  (forall a b, v4_mul_assign_ew O a b = v4_mul_ew O a b) /\
+  (forall a s, v4_mul_assign_ews O a s = v4_mul_ews O a s) /\
+  (forall a b, v4_div_assign_ew O a b = v4_div_ew O a b) /\
+  (forall a s, v4_div_assign_ews O a s = v4_div_ews O a s) /\
+  (forall a b, v4_rem_assign_ew O a b = v4_rem_ew O a b) /\
+  (forall a s, v4_rem_assign_ews O a s = v4_rem_ews O a s).
+Proof. exact assign_eq_value. Qed.
+Print Assumptions C03_assign_forms.
+
 (* non-vacuity: the hypotheses are met by the instances the correspondence check
    executes (exact rationals) and by the integers (integer scalar types, no overflow) *)
 Example C03_CRing_Qc : CRing OpsQ.  Proof. exact Qcrt. Qed.
